@@ -290,3 +290,113 @@ m('util-has-found-always', U, _HAS_OLD, """			found = true;
 # each site of seeded C04-m5 alone is behaviour-preserving (the combination aliases a parameter that is then moved)
 mp('eq-c04-const-ref-event', 'eq-c04-const-ref-event.diff', 'C04,C05,C20', 'silent')
 mp('eq-c04-getevent-returns-ref', 'eq-c04-getevent-returns-ref.diff', 'C04,C05,C20', 'silent')
+
+# ---------------- behaviour-preserving refactorings the rules must tolerate (probe batch 2) -------------
+m('eq2-wait-loop', 'eventqueue.h', """		queueListConditionVariable.wait(queueListLock, [this]() -> bool {
+			return doCanProcess();
+		});""", """		while(! doCanProcess()) {
+			queueListConditionVariable.wait(queueListLock);
+		}""", 'C07,C11', 'silent')
+m('wait-if-not-loop', 'eventqueue.h', """		queueListConditionVariable.wait(queueListLock, [this]() -> bool {
+			return doCanProcess();
+		});""", """		if(! doCanProcess()) {
+			queueListConditionVariable.wait(queueListLock);
+		}""", 'C07', 'fire', 'C07.W1')
+m('eq2-append-two-steps', 'eventdispatcher.h', """		std::lock_guard<Mutex> lockGuard(listenerMutex);
+
+		return eventCallbackListMap[event].append(callback);""", """		std::lock_guard<Mutex> lockGuard(listenerMutex);
+
+		auto & callbackList = eventCallbackListMap[event];
+		return callbackList.append(callback);""", 'C04,C03,C09,C02', 'silent')
+m('eq2-scoped-emplace', 'utilities/scopedremover.h', """			std::unique_lock<typename CallbackListType::Mutex> lock(itemListMutex);
+			itemList.push_back(item);""", """			std::unique_lock<typename CallbackListType::Mutex> lock(itemListMutex);
+			itemList.emplace_back(item);""", 'C15,C09', 'silent')
+m('eq2-process-iterator-loop', 'eventqueue.h', """				for(auto & item : tempList) {
+					doDispatchQueuedEvent(
+						item.get(),
+						typename MakeIndexSequence<sizeof...(Args)>::Type()
+					);
+					item.clear();
+				}
+
+				std::lock_guard<Mutex> queueListLock(freeListMutex);""", """				for(auto it = tempList.begin(); it != tempList.end(); ++it) {
+					doDispatchQueuedEvent(
+						it->get(),
+						typename MakeIndexSequence<sizeof...(Args)>::Type()
+					);
+					it->clear();
+				}
+
+				std::lock_guard<Mutex> queueListLock(freeListMutex);""", 'C05,C06,C08,C09,C11', 'silent')
+m('eq2-insert-early-return', 'callbacklist.h', """		NodePtr beforeNode = before.lock();
+		if(beforeNode) {
+			NodePtr node(doAllocateNode(callback));
+
+			std::lock_guard<Mutex> lockGuard(mutex);
+
+			// A removed callback can still be alive when a running invocation holds it,
+			// but it is not in the list any more, so the new callback goes to the back.
+			if(beforeNode->counter != removedCounter) {
+				doInsert(node, beforeNode);
+			}
+			else {
+				doAppendNode(node);
+			}
+
+			return Handle(node);
+		}
+
+		return append(callback);""", """		NodePtr beforeNode = before.lock();
+		if(! beforeNode) {
+			return append(callback);
+		}
+		NodePtr node(doAllocateNode(callback));
+
+		std::lock_guard<Mutex> lockGuard(mutex);
+
+		if(beforeNode->counter == removedCounter) {
+			doAppendNode(node);
+		}
+		else {
+			doInsert(node, beforeNode);
+		}
+
+		return Handle(node);""", 'C01,C02,C03,C09,C19', 'silent')
+m('eq2-emptyqueue-local', 'eventqueue.h', "		return queueList.empty() && (queueEmptyCounter.load(std::memory_order_acquire) == 0);", """		const bool listEmpty = queueList.empty();
+		return listEmpty && (queueEmptyCounter.load(std::memory_order_acquire) == 0);""", 'C11,C07', 'silent')
+m('eq2-counter-remover-split', 'utilities/counterremover.h', "if(--data->triggerCount <= 0) {\n				data->dispatcher.removeListener", "--data->triggerCount;\n			if(data->triggerCount <= 0) {\n				data->dispatcher.removeListener", 'C16', 'silent')
+m('eq2-anydata-global-new', 'utilities/anydata.h', "		new (buffer.data()) LargeData(std::forward<T>(object));", "		::new (static_cast<void *>(buffer.data())) LargeData(std::forward<T>(object));", 'C17,C08', 'silent')
+m('eq2-anyid-eq-order', 'utilities/anyid.h', "	return a.getDigest() == b.getDigest() && anyid_internal_::compareEqual(a.getValue(), b.getValue());", """	if(a.getDigest() != b.getDigest()) {
+		return false;
+	}
+	return anyid_internal_::compareEqual(a.getValue(), b.getValue());""", 'C18,C20', 'silent')
+
+# ---------------- behaviour-preserving refactorings (probe batch 3) --------------------------------------
+m('eq3-filter-early-return', 'mixins/mixinfilter.h', """		if(! filterList.empty()) {
+			if(! filterList.forEachIf([&args...](typename FilterList::Callback & callback) {
+					return callback(args...);
+				})
+			) {
+				return false;
+			}
+		}
+
+		return true;""", """		if(filterList.empty()) {
+			return true;
+		}
+		return filterList.forEachIf([&args...](typename FilterList::Callback & callback) {
+			return callback(args...);
+		});""", 'C12', 'silent')
+m('eq3-disable-notify-unique-lock', 'eventqueue.h', """				std::lock_guard<Mutex> queueListLock(queue->queueListMutex);
+				--queue->queueNotifyCounter;""", """				std::unique_lock<Mutex> queueListLock(queue->queueListMutex);
+				--queue->queueNotifyCounter;""", 'C07', 'silent')
+m('eq3-heter-invoke-const-local', 'hetercallbacklist.h', """		auto callbackList= doGetCallbackList<PrototypeInfo>();
+		(*callbackList)(std::forward<Args>(args)...);""", """		const auto callbackList = doGetCallbackList<PrototypeInfo>();
+		auto & homoList = *callbackList;
+		homoList(std::forward<Args>(args)...);""", 'C14,C02', 'silent')
+m('eq3-processone-front-ref', 'eventqueue.h', """				auto & item = tempList.front();
+				doDispatchQueuedEvent(
+					item.get(),""", """				auto it = tempList.begin();
+				auto & item = *it;
+				doDispatchQueuedEvent(
+					item.get(),""", 'C05,C06,C08,C11', 'silent')
